@@ -275,3 +275,118 @@ def canary():
     F, wi, wj, ey = _run_eigh_jvp(real=False)
     st, be, det, mod, wl = discharge(dict(hyps=[], goal=z3.Not(z3.fpIsNaN(F.t))), 60000)
     return [ob("C18.canary.finite_without_finite_inputs", st, kind="canary", backend=be, detail=det, witness=mod)]
+
+
+class _Body(Exception):
+    def __init__(self, carry, ys):
+        self.carry, self.ys = carry, ys
+
+
+def density(kind, norb=3, nchol=1, flip=False):
+    """C18.opt.density.<kind>: the density matrix that optimize() carries from one SCF iteration to the next is
+        rhf: 2 sum_{i < nocc} v_i v_i^T,   uhf: sum_{i < nocc_s} v_i^s v_i^s^T   (v_i = eigenvectors in ascending eigenvalue order, the contract of eigh),
+    for ALL eigenvector matrices V (symbolic) and independently of the sign convention applied to the columns (both answers of the sign test are enumerated);
+    together with opt.fock this is what makes a converged solution a fixed point beyond the first iteration."""
+    from vc.jxvc import harness as H
+    from vc.jxvc.interp import evaluate
+    from vc.jxvc.field import is_obj
+    from contracts.wf import Case
+    t0 = time.time()
+    nel = (1, 1) if kind == "rhf" else (2, 1)
+    c = Case(kind, norb, nel, nchol=nchol, complex_trial=False, spin_dep=(kind != "rhf"))
+    nspin = 1 if kind == "rhf" else 2
+    inpv = H.Inputs(40)
+    hv = [inpv.declare(f"V{s}", (norb, norb)) for s in range(nspin)]
+    inpv.build()
+    # one symbol space for the identity: the eigenvectors are the only symbols that survive into the density; everything else is numeric here
+    sp = inpv.sp
+    calls = dict(eigh=0)
+
+    def h_eigh(it, e, ins):
+        s_ = calls["eigh"]
+        calls["eigh"] += 1
+        w = np.arange(1, norb + 1, dtype=float)              # ascending, distinct: the contract of jnp.linalg.eigh
+        V = hv[s_ % nspin]["V"].s
+        return [V, w] if e.outvars[0].aval.ndim == 2 else [w, V]
+
+    def h_argmax(it, e, ins):
+        return np.zeros(tuple(e.outvars[0].aval.shape), dtype=np.dtype(e.outvars[0].aval.dtype))       # only feeds the sign test below
+
+    def h_abs(it, e, ins):
+        return ins[0] if is_obj(ins[0]) else None
+
+    def h_lt(it, e, ins):
+        if is_obj(ins[0]) and not is_obj(ins[1]) and np.all(np.asarray(ins[1]) == 0):
+            return np.full(np.shape(ins[0]), bool(flip))      # the sign test of a column: both answers are enumerated by `flip`
+        return None
+
+    def scan_hook(it, e, ins):
+        P = e.params
+        consts, carry, xs = [list(t) for t in P["ft_in"].update(ins).unpack()]
+        cj = P["jaxpr"]
+        it.scan_hook = None
+        o = it.run(cj.jaxpr, cj.consts, list(consts) + list(carry))
+        c2, ys = [list(t) for t in P["ft_out"].update(o).unpack()]
+        raise _Body(c2, ys)
+    rng = np.random.default_rng(1)
+    import jax.numpy as jnp
+    h1 = rng.normal(size=(2, norb, norb)); h1 = h1 + h1.transpose(0, 2, 1)
+    L = rng.normal(size=(nchol, norb * norb))
+    ham_x = dict(h1=jnp.asarray(h1), chol=jnp.asarray(L))
+    C0 = np.eye(norb)
+    wave_x = dict(mo_coeff=jnp.asarray(C0[:, :nel[0]])) if kind == "rhf" else dict(mo_coeff=[jnp.asarray(C0[:, :nel[0]]), jnp.asarray(C0[:, :nel[1]])])
+    import jax
+    ham_s, wave_s = jax.tree_util.tree_map(np.asarray, ham_x), jax.tree_util.tree_map(np.asarray, wave_x)
+    name = f"C18.opt.density.{kind}[norb={norb},flip={int(flip)}]"
+    fns = [f"wavefunctions.{kind}.optimize"]
+    try:
+        evaluate(sp, c.trial.optimize, (ham_s, wave_s), (dict(ham_x), wave_x), scan_hook=scan_hook, prim_hook={"eigh": h_eigh, "argmax": h_argmax, "abs": h_abs, "lt": h_lt})
+        return [ob(name, UNDECIDED, kind="bounded", detail="the SCF loop was not reached", functions=fns)]
+    except _Body as b:
+        dm = np.asarray(b.carry[0], dtype=object)
+    occ = 2 if kind == "rhf" else 1
+    out = []
+    if kind == "rhf":
+        V = hv[0]["V"].s
+        want = sp.const(occ) * V[:, :nel[0]].dot(V[:, :nel[0]].T)
+        out.append(H.identity(name, dm, want, kind="bounded", functions=fns, inputs=inpv, t0=t0, note=f"carried density == {occ} sum_(i<nocc) v_i v_i^T for every eigenvector matrix"))
+    else:
+        for s_ in range(2):
+            V = hv[s_]["V"].s
+            want = V[:, :nel[s_]].dot(V[:, :nel[s_]].T)
+            out.append(H.identity(name + f".{'ud'[s_]}{'pn'[s_]}", dm[s_], want, kind="bounded", functions=fns, inputs=inpv, t0=t0,
+                                  note="carried density == sum_(i<nocc_s) v_i v_i^T for every eigenvector matrix"))
+    for o in out:
+        if o["status"] == REFUTED:
+            _replay_fock(o) if kind == "uhf" else _replay_rhf_fixed_point(o)
+    return out
+
+
+def _replay_rhf_fixed_point(o):
+    """native replay: a converged RHF solution (independent numpy SCF) must be a fixed point of rhf.optimize over several iterations"""
+    try:
+        from contracts import native
+        native.setup()
+        import jax.numpy as jnp
+        from ad_afqmc import wavefunctions as wf
+        rng = np.random.default_rng(4)
+        norb, nocc, nchol = 4, 2, 3
+        h = rng.normal(size=(norb, norb)); h = (h + h.T) / 2
+        L = rng.normal(size=(nchol, norb, norb)) * 0.3; L = (L + L.transpose(0, 2, 1)) / 2
+        C = np.eye(norb)[:, :nocc]
+        for _ in range(500):
+            rho = 2 * C @ C.T
+            F = h + sum(np.sum(L[g] * rho) * L[g] for g in range(nchol)) - 0.5 * sum(L[g] @ rho @ L[g] for g in range(nchol))
+            C2 = np.linalg.eigh(F)[1][:, :nocc]
+            if np.abs(C2 @ C2.T - C @ C.T).max() < 1e-13:
+                C = C2
+                break
+            C = C2
+        trial = wf.rhf(norb, (nocc, nocc), n_opt_iter=5)
+        out = trial.optimize({"h0": 0.0, "h1": jnp.array([h, h]), "chol": jnp.array(L.reshape(nchol, -1))}, {"mo_coeff": jnp.array(C)})
+        O = np.asarray(out["mo_coeff"])
+        dev = float(np.abs(O @ O.T - C @ C.T).max())
+        o["replayed"] = bool(dev > 1e-8)
+        o["witness"] = dict(o.get("witness") or {}, native=dict(norb=norb, nocc=nocc, n_opt_iter=5, projector_change_of_a_converged_solution=dev))
+    except Exception as e:   # noqa
+        o["witness"] = dict(o.get("witness") or {}, native_error=repr(e)[:300])
